@@ -7,7 +7,7 @@ import ast
 from ..cfg import build_cfg, calls_in, node_calls
 from ..core import Ctx, property_info, rule, share
 from ..model import AnalysisError, FuncInfo, walk_no_nested
-from ..q import A, MUTATORS, asrc, is_self_attr, kwarg, names_in, root_name, stores, unparse
+from ..q import call_name_of, control_deps, A, MUTATORS, asrc, is_self_attr, kwarg, names_in, root_name, stores, unparse
 from ..state import CONSTRUCTION, Site, collect_sites, defaultdict_attrs, persistent_classes, self_reads, value_mutated_after
 from .c03 import who_may_write_map
 
@@ -282,7 +282,10 @@ def recorder_isolation(ctx: Ctx) -> None:
     ctx.floor("recorder uses", n, 4)
     # register_namespace is first-wins on the recorder and nothing else reads PushParser.ns_map
     rn = ctx.repo.func(f"{P}.mixins:PushParser.register_namespace")
-    ctx.ob("register_namespace only adds unseen prefixes to the map it is given", A("if _ not in _:;_[_]=_") in asrc(rn), at=rn, construct="register first wins", msg="recorder semantics changed")
+    sts = [st for st, tgt, v in stores(rn.node) if isinstance(tgt, ast.Subscript) and unparse(tgt.value) == "ns_map"]
+    ok = len(sts) == 1 and any((t == "_notin_" and pol) or (t == "_in_" and not pol) for t, pol, _ in control_deps(rn, sts[0])) and not [
+        c for c in calls_in(rn.node) if isinstance(c.func, ast.Attribute) and c.func.attr in MUTATORS and unparse(c.func.value) == "ns_map"]
+    ctx.ob("register_namespace only adds unseen prefixes to the map it is given", ok, at=rn, construct="register first wins", msg="recorder semantics changed")
     readers = []
     for fi in ctx.repo.funcs_in("xsdata.formats"):
         for node in walk_no_nested(fi.node):
@@ -291,7 +294,13 @@ def recorder_isolation(ctx: Ctx) -> None:
     ctx.ob("PushParser.ns_map is read only by NodeParser.parse (to pass it as the recorder)", sorted(set(readers)) == ["NodeParser.parse"], at=ctx.repo.func(f"{P}.bases:NodeParser.parse"),
            construct="recorder readers", msg=f"readers: {sorted(set(readers))}")
     np_ = ctx.repo.func(f"{P}.bases:NodeParser.parse")
-    ctx.ob("NodeParser.parse passes the recorder only to handler.parse", A("_=self.ns_mapif_isNoneelse_;_=_.parse(_,_)") in asrc(np_), at=np_, construct="recorder hand-off", msg="recorder reaches other code")
+    gnp = build_cfg(np_.node)
+    test_ids = {id(x) for t in gnp.nodes if t.kind == "test" for x in ast.walk(t.ast)}
+    parse_args = {id(a) for c in calls_in(np_.node) if call_name_of(c) == "parse" for a in [*c.args, *[k.value for k in c.keywords]]}
+    rebinding = {id(v) for st, tgt, v in stores(np_.node) if isinstance(tgt, ast.Name) and tgt.id == "ns_map" and v is not None}
+    uses = [x for x in walk_no_nested(np_.node) if (isinstance(x, ast.Name) and x.id == "ns_map" and isinstance(x.ctx, ast.Load)) or (is_self_attr(x, "ns_map") and isinstance(x.ctx, ast.Load))]
+    ok = bool(parse_args) and bool(uses) and all(id(x) in test_ids or id(x) in parse_args or id(x) in rebinding for x in uses)
+    ctx.ob("NodeParser.parse passes the recorder only to handler.parse", ok, at=np_, construct="recorder hand-off", msg="recorder reaches other code")
     # the native handler builds each element's in-scope map from the parent node's map + the element's own declarations (never from the recorder)
     mp = ctx.repo.func(f"{P}.handlers.native:XmlEventHandler.merge_parent_namespaces")
     ctx.ob("merge_parent_namespaces takes only the element's own declarations and the parent node's map", [a.arg for a in mp.params] == ["self", "ns_map"] and "self.queue[-1].ns_map" in unparse(mp.node)
